@@ -742,9 +742,12 @@ class SqlalchemyRender:
 
             return sql, params
 
-        except (SQLAlchemyError, NotImplementedError) as e:
+        except Exception as e:
+            # shapes the translation does not support also surface as KeyError / TypeError / AttributeError ...
             if not with_failback:
-                raise e
+                if isinstance(e, (SQLAlchemyError, NotImplementedError)):
+                    raise e
+                raise NotImplementedError(f'Unable to render {ast_query.__class__.__name__}: {e}') from e
 
             sql_query = str(ast_query)
             if self.dialect.name == 'postgresql':
